@@ -34,7 +34,8 @@ def check(ctx):
                 "(exhaustive over subsets): libwifi_create_radiotap into an exact 128-byte block, then libwifi_parse_radiotap_info on the result; compared with the model, with the Spec encoder "
                 "(version 0, length = bytes produced, present word, fields little-endian at aligned offsets in bit order) and with the supplied values; distinct = (op, output); "
                 "classification invariance: headers produced by the real generator for sampled subsets are prepended to frames of every header kind (management ordered / unordered, control, data, QoS data, extension) at lengths around "
-                "the header length (h-18 .. h+1, h+30), an FCS appended when the flags announce one; the classification with the prefix must equal the classification of the bare frame (length, header length, header, body, QoS / ordered flags, data extraction)")
+                "the header length (h-18 .. h+1, h+30), an FCS appended when the flags announce one; the classification with the prefix must equal the classification of the bare frame (length, header length, header, body, QoS / ordered flags, data extraction); "
+                "a sample of both suites again with the buffer 1, 2 and 4 octets off its natural alignment")
     r = fw.prepare(ctx, MODULE)
     if r is None:
         return
@@ -51,6 +52,10 @@ def check(ctx):
             lines.append(gen_line(m, mode, rnd))
     ctx.coverage["exhaustive"] = True
     c_outs, _, _ = fw.run_suite(ctx, exe, "S-rtg/carried-subsets", lines, "radiotap generation")
+    # alignment of the generated fields is relative to the start of the header, wherever the caller's buffer lies
+    mis = rnd.sample(lines, min(len(lines), 900 if ctx.tier == "quick" else 6000))
+    for k in (1, 2, 4):
+        fw.run_suite(ctx, exe, "S-rtg/misaligned@+%d" % k, mis[k % 3::3], "radiotap generation and decode at a misaligned address", env={"LWV_MISALIGN": str(k)})
     # ---- the generated header in front of a frame does not change how the frame is classified
     import re
     import zlib
@@ -76,6 +81,7 @@ def check(ctx):
             pairs.append(("cls 0 " + (fr.hex() or "-"), "cls 1 " + (h + fr + tail).hex()))
     flat = [x for pr in pairs for x in pr]
     outs, _, _ = fw.run_suite(ctx, exe, "S-rtg/prefix-classification", flat, "classification behind a generated radiotap header")
+    fw.run_suite(ctx, exe, "S-rtg/prefix-classification@+4", flat[: 2 * (len(flat) // 8)], "classification behind a generated radiotap header at a misaligned address", env={"LWV_MISALIGN": "4"})
 
     def core(o):
         if o is None or o.startswith("CRASH"):
